@@ -14,7 +14,7 @@ META = {
         "subregions, decade of cell, decade of |offset|/edge, sub-kind); non-trivial = mesh "
         "has >= 2 cells and (kinds 0-3) at least one subregion."
     ),
-    "cases": {"quick": 500, "thorough": 30000},
+    "cases": {"quick": 500, "thorough": 90000},
     "workers": {"quick": 8, "thorough": 16},
     "timeout": {"quick": 600, "thorough": 5400},
     "deciding": [
